@@ -314,6 +314,8 @@ fn main() {
             s.require("path:must-reject", 20);
             s.require("level:must-accept", 20);
             s.require("ts:precision-0", 20);
+            s.require("chunked:>=2-fragments", 1000);
+            s.require("chunked:longer-than-every-buffer", 1000);
 
             // (a) values
             s.gen("ts-value", s.n(200_000, 6_000_000), ts_value, |c, cx| {
@@ -429,6 +431,41 @@ fn main() {
                     (0..len).flat_map(move |p| (0..=255u8).map(move |v| Sweep { base: b, pos: p, byte: v }))
                 }),
                 check_sweep,
+            );
+            // the same texts arriving through `impl Display` in several fragments (incl. totals longer than the
+            // 30/32/16-byte buffers with every single fragment short)
+            s.gen(
+                "chunked-display",
+                s.n(200_000, 6_000_000),
+                || {
+                    (
+                        near_miss(),
+                        prop_oneof![2 => Just(String::new()), 1 => "[0-9a-fA-F:+Z.-]{1,24}"],
+                        prop::collection::vec(0usize..72, 0..6),
+                    )
+                },
+                |(nm, tail, cuts), cx| {
+                    let mut text = apply(&base_text(&nm.base), &nm.edits);
+                    text.push_str(tail);
+                    let mut cuts = cuts.clone();
+                    cuts.sort();
+                    cx.nontrivial(!cuts.is_empty());
+                    check_chunked_text(&text, &cuts, cx)
+                },
+            );
+            s.gen(
+                "number-casts",
+                s.n(100_000, 3_000_000),
+                || {
+                    (
+                        prop_oneof![any::<f64>(), (1u32..20, 0u32..10).prop_map(|(d, f)| 10f64.powi(d as i32) + f as f64 / 2.0), any::<u64>().prop_map(|v| v as f64 + 0.5)],
+                        prop_oneof![any::<i128>(), any::<u64>().prop_map(|v| v as i128), (1u32..39).prop_map(|d| 10i128.pow(d) - 1)],
+                    )
+                },
+                |(f, i), cx| {
+                    cx.nontrivial(true);
+                    check_number_casts(*f, *i, cx)
+                },
             );
             let max_len = if s.quick() { 4 } else { 5 };
             for parser in 0..4u8 {
